@@ -218,6 +218,20 @@ template<multi::dimensionality_type D> void q_iter(VS<D> const& s) {
 				if constexpr(D == 1) { ds.push_back(addr_of(&*it)); } else { ds.push_back(addr_of((*it).base())); }
 			}
 		}
+		// assignment across views (same base, same extents, other strides): see q_elems
+		if constexpr(D >= 2) {
+			auto ex = exts_of(v);
+			if(ex[0].first == ex[1].first && ex[0].last == ex[1].last && size > 0) {
+				auto&& w = v.transposed();
+				if(w.stride() != 0) {
+					auto bw = w.begin();
+					for(long p = 0; p <= size; ++p) for(long q = 0; q <= size; ++q) {
+						{ auto it = b + p; auto jt = bw + q; it = jt; chk(it == jt); chk(it - bw == q); if(q < size) { chk(same_view(*it, w[first + q])); } if(q + 1 < size) { auto t = it; ++t; chk(same_view(*t, w[first + q + 1])); } }
+						{ auto it = bw + q; auto jt = b + p; it = jt; chk(it == jt); chk(it - b == p); if(p < size) { chk(same_view(*it, v[first + p])); } if(p > 0) { auto t = it; --t; chk(same_view(*t, v[first + p - 1])); } }
+					}
+				}
+			}
+		}
 		std::fprintf(fans, "iter %ld %ld : %s\n", size, viol, join(ds).c_str());
 		if(viol != 0) std::fprintf(fans, "LAW-VIOLATION begin()/end() iterator laws: %ld checks failed\n", viol);
 	}
@@ -271,6 +285,29 @@ template<multi::dimensionality_type D> void q_elems(VS<D> const& s) {
 				if(q < n) { chk(&it[k] == &*jt); chk(addr_of(&*jt) == want[static_cast<std::size_t>(q)]); }
 				{ auto c = it; c = jt; chk(c == jt); if(q < n) { chk(&*c == &*jt); } }
 				{ auto c = it; c += k; chk(c == jt); c -= k; chk(c == it); if(p < n) { chk(&*c == &*it); } }
+			}
+		}
+		// assignment ACROSS views: an iterator assigned from an iterator of another view over the same base with the same
+		// extents (the transposed twin of a view whose two leading extensions agree) must denote the source's position
+		if constexpr(D >= 2) {
+			auto ex = exts_of(v);
+			if(ex[0].first == ex[1].first && ex[0].last == ex[1].last && n > 0) {
+				auto&& w = v.transposed();
+				auto idw = box(exts_of(w));
+				std::vector<long> wantw; for(auto const& idx : idw) wantw.push_back(addr_of(addr_bracket(w, idx.data())));
+				auto&& rw = w.elements();
+				auto bw = rw.begin();
+				chk(static_cast<long>(rw.size()) == n);
+				for(long p = 0; p <= n; ++p) for(long q = 0; q <= n; q += (n > 12 ? 1 + (p % 3) : 1)) {
+					{ auto it = b + p; auto jt = bw + q; it = jt; chk(it == jt); chk(it - bw == q);
+					  if(q < n) { chk(addr_of(&*it) == wantw[static_cast<std::size_t>(q)]); }
+					  if(q + 1 < n) { auto t = it; ++t; chk(addr_of(&*t) == wantw[static_cast<std::size_t>(q + 1)]); chk(addr_of(&it[1]) == wantw[static_cast<std::size_t>(q + 1)]); }
+					  if(q > 0) { auto t = it; --t; chk(addr_of(&*t) == wantw[static_cast<std::size_t>(q - 1)]); auto u = it - 1; chk(addr_of(&*u) == wantw[static_cast<std::size_t>(q - 1)]); } }
+					{ auto it = bw + q; auto jt = b + p; it = jt; chk(it == jt); chk(it - b == p);
+					  if(p < n) { chk(addr_of(&*it) == want[static_cast<std::size_t>(p)]); }
+					  if(p + 1 < n) { auto t = it; ++t; chk(addr_of(&*t) == want[static_cast<std::size_t>(p + 1)]); }
+					  if(p > 0) { auto u = it - 1; chk(addr_of(&*u) == want[static_cast<std::size_t>(p - 1)]); } }
+				}
 			}
 		}
 		std::fprintf(fans, "elems %ld %ld : %s\n", n, viol, join(byinc).c_str());
